@@ -60,7 +60,10 @@ func genType(r *RNG, depth int) *gty {
 	}
 	switch {
 	case c < 55:
-		return &gty{Kind: "basic", Basic: basicKinds[r.Intn(len(basicKinds)-1)].Go} // unsafe.Pointer needs an import; skip in sources
+		if r.Chance(4) {
+			return &gty{Kind: "basic", Basic: "unsafe.Pointer"} // the signature is then parsed in a package that imports unsafe
+		}
+		return &gty{Kind: "basic", Basic: basicKinds[r.Intn(len(basicKinds)-1)].Go}
 	case c < 62:
 		return &gty{Kind: "ptr", Elem: genType(r, depth-1)}
 	case c < 68:
@@ -136,6 +139,8 @@ func (t *gty) Src() string {
 // SrcPlain renders the type with every defined type replaced by its underlying type (same layout)
 func (t *gty) SrcPlain() string {
 	switch t.Kind {
+	case "basic":
+		return t.Basic
 	case "ptr":
 		return "*" + t.Elem.SrcPlain()
 	case "slice":
@@ -405,7 +410,23 @@ func c07(c *Ctx) {
 		expr := "func(" + srcList(ps) + ") (" + srcList(rs) + ")"
 		var sig *gotypes.Signature
 		var err error
-		if len(namedDecls) == 0 {
+		usesUnsafe := strings.Contains(expr, "unsafe.Pointer") || strings.Contains(strings.Join(namedDecls, ";"), "unsafe.Pointer")
+		if usesUnsafe {
+			// unsafe.Pointer cannot be spelled in a signature expression (imports are file-scoped): the signature
+			// is built with the go/types API instead
+			pkg := types.NewPackage("p", "p")
+			mkTuple := func(vs []pv) *types.Tuple {
+				var xs []*types.Var
+				for _, v := range vs {
+					xs = append(xs, types.NewVar(token.NoPos, pkg, v.name, v.t.GoType(pkg)))
+				}
+				return types.NewTuple(xs...)
+			}
+			sig = gotypes.NewSignature(pkg, types.NewSignatureType(nil, nil, nil, mkTuple(ps), mkTuple(rs), false))
+			if len(namedDecls) > 0 {
+				expr += "  where " + strings.Join(namedDecls, "; ")
+			}
+		} else if len(namedDecls) == 0 {
 			sig, err = gotypes.ParseSignature(expr)
 		} else {
 			fset := token.NewFileSet()
@@ -579,7 +600,8 @@ func compilerLayout(c *Ctx, structs []string) [][]int64 {
 	for i, s := range structs {
 		fmt.Fprintf(&b, "{ var v%d %s; row := []int64{int64(unsafe.Sizeof(v%d)), int64(unsafe.Alignof(v%d))}\n", i, s, i, i)
 		// field offsets: parse field names from the generator's own rendering
-		tv, err := types.Eval(token.NewFileSet(), nil, token.NoPos, s)
+		// (field names and, for blank fields, offsets: unsafe.Pointer has the size and alignment of uintptr)
+		tv, err := types.Eval(token.NewFileSet(), nil, token.NoPos, strings.ReplaceAll(s, "unsafe.Pointer", "uintptr"))
 		if err != nil {
 			die(err)
 		}
@@ -686,4 +708,49 @@ func derefBuildCheck(c *Ctx) {
 func curFile(ctx *build.Context) *ir.File {
 	f, _ := ctx.Result()
 	return f
+}
+
+// unsafeOnly imports package unsafe and nothing else
+type unsafeOnly struct{}
+
+func (unsafeOnly) Import(path string) (*types.Package, error) {
+	if path == "unsafe" {
+		return types.Unsafe, nil
+	}
+	return nil, fmt.Errorf("no importer for %q", path)
+}
+
+var goTypeCounter int
+
+// GoType builds the go/types type the generator's type stands for
+func (t *gty) GoType(pkg *types.Package) types.Type {
+	switch t.Kind {
+	case "basic":
+		for _, k := range basicKinds {
+			if k.Go == t.Basic {
+				return types.Typ[k.K]
+			}
+		}
+		return types.Typ[types.Int]
+	case "ptr":
+		return types.NewPointer(t.Elem.GoType(pkg))
+	case "slice":
+		return types.NewSlice(t.Elem.GoType(pkg))
+	case "arr":
+		return types.NewArray(t.Elem.GoType(pkg), t.N)
+	case "struct":
+		var fs []*types.Var
+		for _, f := range t.Fields {
+			fs = append(fs, types.NewField(token.NoPos, pkg, f.Name, f.T.GoType(pkg), false))
+		}
+		return types.NewStruct(fs, nil)
+	case "word":
+		return types.NewSignatureType(nil, nil, nil, nil, nil, false)
+	case "iface":
+		return types.NewInterfaceType(nil, nil).Complete()
+	case "named":
+		goTypeCounter++
+		return types.NewNamed(types.NewTypeName(token.NoPos, pkg, fmt.Sprintf("N%d", goTypeCounter), nil), t.Elem.GoType(pkg), nil)
+	}
+	return types.Typ[types.Int]
 }
